@@ -16,13 +16,17 @@ CONSTANTS MaxLen,     \* longest field
           ThLen,      \* operator theorems (ASSUME): fields up to this length ...
           ThIdx       \* ... and indices -ThIdx..ThIdx
 
-(* The state machine draws its indices from the values that can behave       *)
-(* differently for a window of n elements, -(n+1)..(n+1): everything further *)
-(* out clips / raises like n+1 does.  The operator theorems at the end of    *)
-(* the module cover the full range -ThIdx..ThIdx without the state machine.  *)
+(* The state machine draws its indices from representatives of the values    *)
+(* that can behave differently for a window of n elements: 0..n+1 (n+1 is     *)
+(* out of range / clips), -1 (last) and -(n+1) (out of range / clips to 0).   *)
+(* Negative indices in between are equivalent to non-negative ones by the     *)
+(* operator theorems at the end of the module, which cover the full range     *)
+(* -ThIdx..ThIdx without the state machine.  Near(n) (every value in          *)
+(* -(n+1)..(n+1)) is what the behaviour generator ViewsSim draws from.        *)
 Near(n) == {IntB(i) : i \in (0 - n - 1)..(n + 1)}
-SB(n)   == Near(n) \cup {NoneB}                     \* slice bounds  v[a:b]
-IB(n)   == Near(n) \cup {EndB}                      \* insert index / node-API bound
+Can(n)  == {IntB(i) : i \in (0..(n + 1)) \cup {-1, 0 - n - 1}}
+SB(n)   == Can(n) \cup {NoneB}                      \* slice bounds  v[a:b]
+IB(n)   == Can(n) \cup {EndB}                       \* insert index / node-API bound
 VLen(v) == Hi(views[v], Len(c)) - Lo(views[v], Len(c))
 New(k)  == [i \in 1..k |-> fresh + i]
 Room(k) == Len(c) + k <= MaxLen
@@ -77,8 +81,8 @@ Init == \E n \in InitLens : InitWith([i \in 1..n |-> i], MaxViews)
 DoSetSlice   == \E v \in Live : \E a \in SB(VLen(v)), b \in SB(VLen(v)), k \in 0..MaxNew :
                   Room(k) /\ Through(v, "setslice", a, b, New(k))
 DoDelSlice   == \E v \in Live : \E a \in SB(VLen(v)), b \in SB(VLen(v)) : Through(v, "delslice", a, b, <<>>)
-DoSetIdx     == \E v \in Live : \E a \in Near(VLen(v)) : Room(1) /\ Through(v, "setidx", a, NoneB, New(1))
-DoDelIdx     == \E v \in Live : \E a \in Near(VLen(v)) : Through(v, "delidx", a, NoneB, <<>>)
+DoSetIdx     == \E v \in Live : \E a \in Can(VLen(v)) : Room(1) /\ Through(v, "setidx", a, NoneB, New(1))
+DoDelIdx     == \E v \in Live : \E a \in Can(VLen(v)) : Through(v, "delidx", a, NoneB, <<>>)
 DoInsert     == \E v \in Live : \E a \in IB(VLen(v)), k \in 1..MaxNew : Room(k) /\ Through(v, "insert", a, NoneB, New(k))
 DoAppend     == \E v \in Live : Room(1) /\ Through(v, "append", NoneB, NoneB, New(1))
 DoExtend     == \E v \in Live, k \in 1..MaxNew : Room(k) /\ Through(v, "extend", NoneB, NoneB, New(k))
@@ -95,8 +99,8 @@ DoMkFull     == \E w \in 1..MaxViews : MkFull(w)
 DoMkSub      == \E v \in Live, w \in 1..MaxViews : \E a \in SB(VLen(v)), b \in SB(VLen(v)) : MkSub(v, w, a, b)
 DoBasePut    == \E a \in IB(Len(c)), b \in IB(Len(c)), k \in 0..MaxNew : Room(k) /\ BasePut(a, b, New(k))
 (* outcomes that must occur (vacuity guards)                                 *)
-DoIndexError == (DoSetIdx \/ DoDelIdx) /\ ~last'.ok
-DoInverted   == (DoSetSlice \/ DoDelSlice \/ DoMkSub \/ DoBasePut) /\ ~last'.ok
+DoIndexError == DoDelIdx /\ ~last'.ok
+DoInverted   == DoDelSlice /\ ~last'.ok
 
 Next == \/ DoSetSlice \/ DoDelSlice \/ DoSetIdx \/ DoDelIdx \/ DoInsert \/ DoAppend \/ DoExtend \/ DoPrepend
         \/ DoPrextend \/ DoReplaceOne \/ DoReplaceSeq \/ DoRemove \/ DoCut \/ DoUseClean \/ DoUseStale
@@ -224,14 +228,16 @@ ASSUME ThroughIsPython ==
   \A len \in 0..ThLen, w \in Stored, op \in ThroughOps : \A x \in ArgsOf(op) : ThroughTheorem(len, w, op, x)
 ASSUME SubIsPythonSlice ==
   \A len \in 0..ThLen, w \in Stored, a \in ThB \cup {NoneB}, b \in ThB \cup {NoneB} : SubTheorem(len, w, a, b)
-(* sub-view of sub-view = slicing twice                                      *)
+(* sub-view of sub-view = slicing twice (bounds near the window they apply to) *)
+NearN(n) == Near(n) \cup {NoneB}
 ASSUME SubSubComposes ==
-  \A len \in 0..ThLen, a \in ThB \cup {NoneB}, b \in ThB \cup {NoneB}, a2 \in ThB \cup {NoneB}, b2 \in ThB \cup {NoneB} :
+  \A len \in 0..ThLen : \A a \in NearN(len), b \in NearN(len) :
     LET cc == [i \in 1..len |-> i]
         v1 == SubView(FullView, len, a, b)
         s1 == PyGetSlice(cc, a, b)
-    IN (~Inverted(len, 0, a, b) /\ ~Inverted(Len(s1), 0, a2, b2)) =>
-          Denotes(SubView(v1, len, a2, b2), cc) = PyGetSlice(s1, a2, b2)
+    IN ~Inverted(len, 0, a, b) =>
+         \A a2 \in NearN(Len(s1)), b2 \in NearN(Len(s1)) :
+           ~Inverted(Len(s1), 0, a2, b2) => Denotes(SubView(v1, len, a2, b2), cc) = PyGetSlice(s1, a2, b2)
 
 (* ------------------------------------------------------------------------ *)
 (* NOT a property (ViewsMC_follow.cfg lets TLC refute it): a view does not   *)
